@@ -6,6 +6,7 @@ package main
 import (
 	"fmt"
 	"sort"
+	"strings"
 
 	"github.com/graphql-go/graphql"
 )
@@ -327,6 +328,7 @@ var c11Mutations = []string{
 	"nil-interface", "nil-member", "nil-field", "nil-arg", "nil-enum-value", "nil-input-field",
 	"nil-field-type", "nil-arg-type", "nil-input-field-type", "list-of-nil", "nonnull-of-nil", "nil-in-types", "nil-directive", "err-directive",
 	"iface-field-missing", "iface-field-wrong-type", "iface-field-list-unrelated", "iface-field-nullable", "iface-arg-missing", "iface-arg-wrong-type", "extra-required-arg", "extra-required-arg-noargs",
+	"iface-arg-add-nonnull", "iface-arg-drop-nonnull", "iface-field-drop-nonnull", "iface-field-add-nonnull",
 	"nonnull-nonnull-field", "nonnull-nonnull-arg", "nonnull-nonnull-input", "nonnull-nonnull-nested",
 	"no-query", "bad-mutation-root", "bad-subscription-root",
 	"input-in-output", "output-in-arg", "output-in-input-field",
@@ -335,6 +337,36 @@ var c11Mutations = []string{
 	"dup-member", "dup-interface", "bad-slot-interfaces", "bad-slot-members",
 	"broken-enum-as-field", "broken-enum-in-list-field", "broken-enum-as-arg", "broken-enum-as-input-field", "broken-scalar-as-arg", "broken-object-in-list-field",
 	"two-inputs-one-name",
+}
+
+// every type that differs from t by exactly one non-null wrapper: added where
+// there is none (add = true) or removed where there is one, at any depth
+func c11NullabilityVariants(t c11Ref, add bool) []c11Ref {
+	var out []c11Ref
+	switch t.K {
+	case 3:
+		if !add {
+			out = append(out, *t.Of)
+		}
+		inner := *t.Of
+		if inner.K == 2 {
+			for _, v := range c11NullabilityVariants(*inner.Of, add) {
+				out = append(out, c11NonNull(c11ListOf(v)))
+			}
+		}
+	case 2:
+		if add {
+			out = append(out, c11NonNull(t))
+		}
+		for _, v := range c11NullabilityVariants(*t.Of, add) {
+			out = append(out, c11ListOf(v))
+		}
+	case 1:
+		if add {
+			out = append(out, c11NonNull(t))
+		}
+	}
+	return out
 }
 
 func c11ByKind(c *c11Cfg, kind int, only map[int]bool) []*c11Def {
@@ -771,6 +803,63 @@ func c11Mutate(r *Rng, c *c11Cfg, mut string) bool {
 				}
 			}
 		}
+	case "iface-arg-add-nonnull", "iface-arg-drop-nonnull":
+		// the implementer's argument type differs from the interface's only by one
+		// nullability wrapper, at any depth, in either direction
+		x := pickImpl(nil)
+		if x == nil {
+			return false
+		}
+		leaf := c11Named([]int{c11IDString, c11IDInt, c11IDID, c11IDBoolean}[r.Intn(4)])
+		if es := c11ByKind(c, c11Enum, nil); len(es) > 0 && r.Chance(30) {
+			leaf = c11Named(es[r.Intn(len(es))].ID)
+		}
+		shapes := []c11Ref{leaf, c11ListOf(leaf), c11ListOf(c11ListOf(leaf)), c11NonNull(leaf), c11ListOf(c11NonNull(leaf)),
+			c11NonNull(c11ListOf(leaf)), c11NonNull(c11ListOf(c11NonNull(leaf))), c11ListOf(c11NonNull(c11ListOf(leaf))),
+			c11NonNull(c11ListOf(c11NonNull(c11ListOf(c11NonNull(leaf)))))}
+		var base c11Ref
+		var vars []c11Ref
+		for try := 0; try < 20 && len(vars) == 0; try++ {
+			base = shapes[r.Intn(len(shapes))]
+			vars = c11NullabilityVariants(base, mut == "iface-arg-add-nonnull")
+		}
+		if len(vars) == 0 {
+			return false
+		}
+		// the interface field and every implementer get the argument; the chosen implementer gets the variant
+		x.i.Fields[x.fi].Args = append(x.i.Fields[x.fi].Args, c11Arg{Name: "nz", T: base})
+		for _, y := range impls {
+			if y.i == x.i && y.fi == x.fi {
+				t := base
+				if y.o == x.o {
+					t = vars[r.Intn(len(vars))]
+				}
+				y.o.Fields[y.fo].Args = append(y.o.Fields[y.fo].Args, c11Arg{Name: "nz", T: t})
+			}
+		}
+	case "iface-field-drop-nonnull", "iface-field-add-nonnull":
+		// result type: dropping a non-null wrapper at any depth is not covariant (adding one is)
+		x := pickImpl(nil)
+		if x == nil {
+			return false
+		}
+		add := mut == "iface-field-add-nonnull"
+		vars := c11NullabilityVariants(x.i.Fields[x.fi].T, add)
+		if len(vars) == 0 {
+			leaf := c11Named(c11IDString)
+			base := []c11Ref{c11NonNull(leaf), c11ListOf(c11NonNull(leaf)), c11NonNull(c11ListOf(c11ListOf(c11NonNull(leaf)))), c11ListOf(leaf)}[r.Intn(4)]
+			x.i.Fields[x.fi].T = base
+			for _, y := range impls {
+				if y.i == x.i && y.fi == x.fi {
+					y.o.Fields[y.fo].T = base
+				}
+			}
+			vars = c11NullabilityVariants(base, add)
+		}
+		if len(vars) == 0 {
+			return false
+		}
+		x.o.Fields[x.fo].T = vars[r.Intn(len(vars))]
 	case "extra-required-arg":
 		x := pickImpl(func(x impl) bool { return len(x.i.Fields[x.fi].Args) > 0 })
 		if x == nil {
@@ -1037,7 +1126,7 @@ func c11EmitAppend(e *Emitter, c *c11Cfg, order []int, tags []string) {
 
 func genC11(tier string, seed uint64, n int, e *Emitter) {
 	if n == 0 {
-		n = 300
+		n = 220
 		if tier == "thorough" {
 			n = 6000
 		}
@@ -1046,12 +1135,17 @@ func genC11(tier string, seed uint64, n int, e *Emitter) {
 	e.Emit(Case{Group: "meta", Coq: "MetaCase " + c11MetaCoq(), Desc: "introspection and built-in scalar types as read from the library", Tags: []string{"meta"}})
 	// (1) corpus: every way of breaking a configuration, on fixed seeds
 	for k, mut := range c11Mutations {
-		for try := 0; try < 40; try++ {
+		reps := 1
+		if strings.HasPrefix(mut, "iface-") || strings.HasPrefix(mut, "extra-required") {
+			reps = 4 // the interface clauses have the most ways of going wrong
+		}
+		done := 0
+		for try := 0; try < 80 && done < reps; try++ {
 			r := NewRng(0xC11, uint64(k*100+try))
 			c := c11GenValid(r)
 			if c11Mutate(r, c, mut) {
 				c11EmitBuild(e, c, []string{"corpus", "mut:" + mut}, true)
-				break
+				done++
 			}
 		}
 	}
